@@ -51,6 +51,22 @@ CHECKS = {
  "C09": dict(engine="pki-profile", cat="exploration", ref="DESIGN.md 6.9",
    technique="deterministic simulation of the issuer over the issuing-profile matrix (fault-free twin of C01)",
    text="The simulated issuer (own X.509/CMS writers and signers) issues documents over the profile matrix - CSCA and DS keys RSA 1024-4096 / all 11 curves named and explicit, PKCS#1 v1.5 / PSS / ECDSA, SHA-1..SHA-512, both SID forms, LDS SO v0/v1, signing time absent / inside / exactly at the DS and CSCA window edges, NULL-less digest identifiers, indefinite lengths, extra certificates, re-ordered or UTF8 names, decoy and same-key-identifier anchors, CardSecurity - and the real PassiveAuth must succeed and return the [DS, CSCA] chain."),
+ "C04": dict(engine="proto-pace", cat="exploration", ref="DESIGN.md 6.4",
+   technique="deterministic simulation: real PACE against the reference chip over the full suite x curve x mapping matrix with ground edge slices, plus an on-path adversary altering exactly one chip message",
+   text="Real pace.DoPACE over a real NfcSession against the reference chip (own KDF, nonce encryption, generic mapping, tokens, CAM data) for every parameter id 8-18 x suite x GM/CAM, all password routes and MRZ layouts, seeded nonces and ephemerals, shared secrets / public coordinates ground to leading zero octets, several and unsupported PACE infos. Genuine: success, identical session keys and counter on both sides, next protected exchange authenticates. "
+        "Faulted twins (wrong password; one altered/omitted nonce, mapping key, agreement key, token, CAM data): failure, no session installed, CAM never successful."),
+ "C05": dict(engine="proto-bac", cat="exploration", ref="DESIGN.md 6.5",
+   technique="deterministic simulation: real BAC against the reference chip personalised from the same MRZ, with enumerated and seeded hostile cryptograms",
+   text="Real bac.DoBAC against the reference chip (own MRZ_information, KDF with parity, retail MAC) for all MRZ layouts, filler and extended document numbers and every password route, all randoms seeded incl. counters about to wrap with traffic across the wrap: success and identical session state. "
+        "Hostile EXTERNAL AUTHENTICATE answers - all 320 single-bit mutations, other-MRZ keys, replay from another run, correct MAC over wrong echoes (key-knowing adversary), wrong lengths - must fail and install no session."),
+ "C06": dict(engine="proto-ca (+ proto-pace for the CAM leg)", cat="exploration", ref="DESIGN.md 6.6",
+   technique="deterministic simulation: real Chip Authentication against the key-holding reference chip over curves x suites x key-id arrangements, and against impostor chips",
+   text="Real chipauth.DoChipAuth inside an installed session against the reference chip holding the DG14 key: 11 curves x named/explicit x {suite inferred (MSE:Set KAT), info, key id, two keys, two suites}, terminal ephemerals ground to leading-zero shared secrets: success, identical new keys, counter restarted, later traffic under the new keys. "
+        "Impostors without the key (own key pair, no key switch, unprotected 9000, transcript replay) are never successful. The CAM leg runs in the PACE engine."),
+ "C07": dict(engine="proto-aa", cat="exploration", ref="DESIGN.md 6.7",
+   technique="deterministic simulation: real Active Authentication against the reference signer and an adversarial chip answer, reference verifier as oracle",
+   text="Real activeauth.DoActiveAuth inside an installed session against the reference signer (own ISO 9796-2 and ECDSA): RSA 1024-4096 x five trailers x M1 policies, ECDSA on 11 curves plain and DER, supplied challenges: genuine accepted, challenge transmitted and recorded. "
+        "Adversarial answers (bit flips, other challenge, other key, range violations, malleable n-s, digest over M1 only, wrong trailers, trailing bytes, random) are accepted only if the reference verifier confirms a valid signature over exactly the challenge sent; offline nonce binding is checked in the store engine."),
 }
 
 NOT_APPLICABLE = {
@@ -107,6 +123,10 @@ def main():
             {"name": "pki-forgery", "path": "sim/engines/pkiworld.go", "serves_properties": ["C01"], "kind_free_text": "byzantine issuer / chip / trust-store operator faults with by-construction verdicts"},
             {"name": "pki-profile", "path": "sim/engines/pkiworld.go", "serves_properties": ["C09"], "kind_free_text": "fault-free issuing-profile matrix"},
             {"name": "hostile-chip", "path": "sim/engines/hostile.go", "serves_properties": ["C02"], "kind_free_text": "adversarial chip personalisations read end to end, live and offline; plus session-sweep"},
+            {"name": "proto-pace", "path": "sim/engines/protoduel.go", "serves_properties": ["C04", "C06"], "kind_free_text": "real PACE vs reference chip, with on-path adversary"},
+            {"name": "proto-bac", "path": "sim/engines/protoduel.go", "serves_properties": ["C05"], "kind_free_text": "real BAC vs reference chip, hostile cryptograms"},
+            {"name": "proto-ca", "path": "sim/engines/protoduel.go", "serves_properties": ["C06"], "kind_free_text": "real CA vs key-holding chip and impostors"},
+            {"name": "proto-aa", "path": "sim/engines/protoduel.go", "serves_properties": ["C07"], "kind_free_text": "real AA vs reference signer and adversarial answers"},
             {"name": "readfile", "path": "sim/engines/readfile.go", "serves_properties": ["C13"], "kind_free_text": "deterministic simulation: real ReadFile vs reference chip with response-splitting behaviours"},
         ],
         "checks": checks,
